@@ -20,7 +20,8 @@ THEOREMS = ["Ymq.C10." + t for t in (
     "middlemul_spec middlemul_pub_spec inv_mod_xn_spec div_mod_xn_spec div_mod_xn_zmod "
     "product_tree_spec from_roots_spec multi_eval_tree_spec multi_eval_spec multi_eval_zmod roots_eval_direct_spec "
     "mul_spec fft_spec mulfft_spec mulfft_exact kronecker_cyclic_fft roots_eval_spec roots_eval_zmod crt_q_estimate fint_mul_karatsuba crt_spec ntt_roots_spec ntt_inplace_spec ntt_pipeline_spec crt_call_bound from_mint_spec pprods_modn_spec convolve_modn_ntt_spec "
-    "mont_ops_hom fft_longmul_refines fft_midmul_refines mul_fft_end_to_end longmul_ntt_end_to_end").split()]
+    "mont_ops_hom fft_longmul_refines fft_midmul_refines mul_fft_end_to_end longmul_ntt_end_to_end "
+    "middlemul_ntt_end_to_end div_mod_xn_mont multi_eval_mont roots_eval_mont").split()]
 HYPOTHESES = []
 PROFILES = ["release", "chk"]
 TIMEOUT = 60.0
